@@ -283,10 +283,13 @@ def load_known():
 
 def key_matches(key, known):
     """exact match, or a listed key ending in '*' as a prefix pattern"""
+    if key is None:
+        return None
     if key in known:
         return key
+    import fnmatch
     for k in known:
-        if k.endswith("*") and key.startswith(k[:-1]):
+        if any(ch in k for ch in "*?[") and fnmatch.fnmatchcase(key, k):
             return k
     return None
 
